@@ -203,7 +203,7 @@ Inductive rstate :=
 (* &self.source[range] *)
 Definition slice (src : list N) (r : range) : res (list N) :=
   let '(s, e) := r in
-  if e <? s then Panic P_SLICE_RANGE
+  if e <? s then Panic P_OTHER      (* "slice index starts at s but ends at e": class `other` in the harness *)
   else if N.of_nat (length src) <? e then Panic P_SLICE_RANGE
   else Ok (firstn (N.to_nat (e - s)) (skipn (N.to_nat s) src)).
 
